@@ -103,6 +103,10 @@ def closure(ctx):
     ctx.check("buckets maps every node to its block", all(x in blocks[bk[x]] for x in range(n)), sig=f"buckets:{tag}")
 
 
+# the same body over the NON-COMMUTATIVE matrix semiring (acyclic graphs: star is applied to zero only)
+case("C15", "closure_nc", domain="SM")(closure)
+
+
 def _rebuild(ctx, n, ws):
     from genlm.grammar.linear import WeightedGraph
 
@@ -134,6 +138,13 @@ def jobs(tier, seed):
         for k, e in FOUR.items():
             out += split_job(dict(case="closure", params=dict(n=4, edges=e, name=f"4-{k}")), [0, 1])
         out.append(dict(case="closure", params=dict(n=2, edges=[(0, 0), (0, 1), (1, 0)], name="canary", canary=True)))
+    dag3 = [(0, 1), (0, 2), (1, 2)]
+    dag4 = [(0, 1), (0, 2), (1, 2), (1, 3), (2, 3), (0, 3)]
+    dag4b = [(3, 2), (2, 1), (1, 0), (3, 0), (2, 0)]
+    out.append(dict(case="closure_nc", params=dict(n=3, edges=dag3, name="nc-dag3")))
+    out += split_job(dict(case="closure_nc", params=dict(n=4, edges=dag4, name="nc-dag4")), [0, 1])
+    out += split_job(dict(case="closure_nc", params=dict(n=4, edges=dag4b, name="nc-dag4-reversed")), [0])
+    out.append(dict(case="closure_nc", params=dict(n=3, edges=dag3, name="nc-canary", canary=True)))
     seeds = [1 + seed % 1000] if tier == "quick" else [0, 1, 1 + seed % 1000]
     return [dict(j, hashseed=s) for j in out for s in (seeds if not j["params"].get("canary") else seeds[:1])]
 
@@ -144,7 +155,8 @@ INFO = dict(
                "weighted graphs with 3 nodes (9 free edge weights, each possibly zero: 512 shapes) and on 4-node skeletons with nested cycles and an "
                "isolated node, with symbolic right-hand sides; z3 proves entry-wise equality with (I-A)^{-1} computed by Cramer's rule, the "
                "fixed-point equations, and equality with b(I-A)^{-1} / (I-A)^{-1}b for all weights with convergent series; blocks are compared "
-               "with Boolean SCCs and the edge order.",
+               "with Boolean SCCs and the edge order. A second pass runs the same routines over a NON-COMMUTATIVE symbolic semiring (2x2 real "
+               "matrices with symbolic entries) on acyclic graphs, so that the operand order of every product is part of the proved identity.",
     level_note="Assumes the oracle's pivots > 0 (rho(A)<1). Trusted: CPython, z3, SW proxy, Cramer oracle. Outside: graphs with more than 4 nodes.",
     design_ref="DESIGN.md section 3 C15",
     explanation="The real closure / solver routines run on symbolic edge weights; z3 proves equality with the Cramer closed form for all weights.",
